@@ -81,3 +81,42 @@ Print Assumptions C19_total.
 Print Assumptions C19_peers.
 Print Assumptions C19_failure.
 Print Assumptions peer_of_spec.
+
+(* ---- fault sequences: tracker task / command channel / manager, all interleavings ------------- *)
+From Rdest Require Import Tracker TrackerProofs.
+
+(* For every number of failed announces before the good one and every interleaving of the tracker task
+   with the manager: the manager is never blocked while the tracker has not succeeded (it can always
+   take another event of its select! loop) ... *)
+Theorem C19_faults_never_blocked : forall fails s,
+  reachable Session_join_tracker_only_on_resp fails s -> succeeded s = false ->
+  exists s', tnext Session_join_tracker_only_on_resp s StMgrOther = Some s'.
+Proof. exact never_blocked_before_success. Qed.
+
+(* ... and the two never wait for each other: every state that is not final (reply handled, task ended,
+   channel empty) can move without help from outside. *)
+Theorem C19_faults_no_deadlock : forall fails s,
+  reachable Session_join_tracker_only_on_resp fails s -> final s = false ->
+  exists st s', st <> StMgrOther /\ tnext Session_join_tracker_only_on_resp s st = Some s'.
+Proof. exact no_deadlock. Qed.
+
+(* The pinned manager (it awaited the tracker task after every command) is refuted: after one failure
+   it is blocked while the tracker is still failing; after 66 failures the two are deadlocked. *)
+Theorem C19_pinned_refuted :
+  (exists s, reachable false 1 s /\ succeeded s = false /\ tnext false s StMgrOther = None) /\
+  (let s := run_sched false 1000 (t_init 66) in stuck false s = true /\ final s = false).
+Proof.
+  split.
+  - exists (mksys (TSleeping 0) [] MAwaitJob false false 0). split; [|split; reflexivity].
+    apply (r_step false 1 (mksys (TSleeping 0) [TFail] MIdle true false 0) StMgrRecv); [|reflexivity].
+    apply (r_step false 1 (t_init 1) StTracker); [apply r_init | reflexivity].
+  - vm_compute. split; reflexivity.
+Qed.
+
+(* non-vacuity: with the repaired manager 70 failures end in a final state *)
+Example C19_faults_nonvacuous : final (run_sched true 1000 (t_init 70)) = true.
+Proof. vm_compute. reflexivity. Qed.
+
+Print Assumptions C19_faults_never_blocked.
+Print Assumptions C19_faults_no_deadlock.
+Print Assumptions C19_pinned_refuted.
